@@ -71,6 +71,10 @@ func maxSends(fn *ssa.Function, pred func(ssa.Instruction) bool) int {
 
 func runC19(c *Ctx) {
 	p := c.Progs["mod"]
+	c.Rule("C19.Y", "compatibility with the party that is not changed with this code: blob layout; the agent endpoints let only the ID headers decide; new fields of stored records decide nothing", 7)
+	ruleBlobLayout(c, p, "C19.Y")
+	ruleReceiverHeadersDecide(c, p, "C19.Y", []string{"app.pendingHandler", "app.requestHandler", "app.responseHandler", "app.parseResponse", "app.checkBackendID"}, "X-Inverting-Proxy-Backend-ID", "X-Inverting-Proxy-Request-ID")
+	ruleNewWireFieldNotDecisive(c, p, "C19.Y", "a record stored or cached by an instance of the deployed build carries the zero value there", "app/types.Request", "app/types.Response")
 	c.Rule("C19.I", "chain of custody of (backend ID, request ID) and of the stored bytes", 23)
 	c.Rule("C19.K", "key agreement between write and read paths; ordered blob parts; stored entities stay loadable", 13)
 	c.Rule("C19.C", "completion flag", 3)
